@@ -29,7 +29,8 @@ PROP = "C07"
 # ops: ["ko", gid] ["kom", [gid...], form] ["rko", index] ["setf", gid, bool]
 
 BOUNDS = [("-1000", "1000"), ("0", "1000"), ("-10", "5"), ("0", "0"), ("2", "8"), ("-8", "-2"), ("1/2", "3/2"),
-          ("-1000", "0"), ("-3/4", "0")]
+          ("-1000", "0"), ("-3/4", "0"), ("5", "5"), ("-3", "-3"), ("1/2", "1/2")]     # incl. fixed non-zero fluxes
+
 
 
 def q(x):
@@ -87,6 +88,9 @@ def apply(m, o):
             arg = [m.genes.get_by_id(g) for g in o[1]]
         elif form == "idx":
             arg = [m.genes.index(g) for g in o[1]]
+        elif form.startswith("bare"):      # a single gene given without a list (DictList.get_by_any wraps it)
+            g = o[1][0]
+            arg = {"bare-id": g, "bare-obj": m.genes.get_by_id(g), "bare-idx": m.genes.index(g)}[form]
         else:
             arg = list(o[1])
         return knock_out_model_genes(m, arg)
@@ -204,8 +208,9 @@ def cases_for_network(rng, rxns, genes, quick):
             out.append({"rxns": rxns, "pre": [], "ctx": (k % 2 == 1), "ops": [["ko", g] for g in order],
                         "kind": "one-at-a-time"})
         # all at once through knock_out_model_genes (ids / objects / indices)
+        forms = ["id", "obj", "idx"] + (["bare-id", "bare-id", "bare-obj", "bare-idx"] if len(S) == 1 else [])
         out.append({"rxns": rxns, "pre": [], "ctx": rng.random() < 0.5,
-                    "ops": [["kom", list(orders[-1]), rng.choice(["id", "obj", "idx"])]], "kind": "all-at-once"})
+                    "ops": [["kom", list(orders[-1]), rng.choice(forms)]], "kind": "all-at-once"})
     # mixed histories: pre-set flags, reaction knock-outs, flags switched back, repeated knock-outs
     for _ in range(3 if quick else 8):
         ops = []
